@@ -11,7 +11,7 @@ Oracle per header (every clause is checked for every object/group instance and e
  3. calling the wrapper records exactly one slot call, of exactly that entry, with `cont` = &obj.container (by-value: the
     object's container), every argument unchanged and in order, and returns the slot's sentinel (Self: a container holding the
     slot's instance/context, reported separately: whether the returned object's vtable pointers are those of the source);
- 4. resources: consuming wrappers see a context count >= 2 inside the slot (a clone is alive across the call); afterwards the
+ 4. resources (the mock hands out a distinct handle per context clone, so double releases and leaks are told apart): consuming wrappers see a context count >= 2 inside the slot (a clone is alive across the call); afterwards the
     context count is what ownership implies (0 once everything is released), never negative; the instance is released exactly
     once (by the consuming slot, the C `*_drop` helper or the C++ destructor) and never twice.
 """
@@ -193,6 +193,8 @@ def evaluate(case, infos, calls, findings, cr, processed_name, processed_text=""
             V.append(("ctx_over_release:%s:%s" % (lang, kindtag), "%s: context refcount ends at %d (expected %d, underflow=%d)" % (what, end["count"], exp["count"], end["under"])))
         elif end["count"] > exp["count"]:
             V.append(("ctx_leak:%s:%s" % (lang, kindtag), "%s: context refcount ends at %d, expected %d: a context reference is never released" % (what, end["count"], exp["count"])))
+        if end.get("dbl", 0):
+            V.append(("ctx_double_release:%s:%s" % (lang, kindtag), "%s: %d context handle(s) were released twice (every clone of the context is a distinct handle in the mock; a leak elsewhere does not hide this)" % (what, end["dbl"])))
         for d in ("d1", "d2"):
             if end[d] < exp[d]:
                 V.append(("instance_not_released:%s:%s" % (lang, kindtag), "%s: instance %s released %d times, expected %d" % (what, d, end[d], exp[d])))
